@@ -305,11 +305,11 @@ pub fn run(prop: &str, tier: &str, replay: Option<&str>) -> i32 {
     // (a) histories: all sequences of operations up to a depth, sequentially in this process
     {
         // (the search is sequential by construction - the process is the subject - and operations that sign with RSA cost
-        // milliseconds: all 16 operations to depth 4 in the thorough tier, the 9 operations without an RSA signature to depth 5)
+        // milliseconds: all 19 operations to depth 3; in the thorough tier the 15 without a large or freshly loaded RSA key to depth 4 and 9 without an RSA signature to depth 5)
         let depth = if thorough { 4 } else { 3 };
-        let sec = Section::new(&format!("histories/depth<={}", depth), &format!("every sequence of <= {} operations over {} operations on shared keys and issuers (thorough: also every sequence of 5 over the 9 operations that do not sign with RSA); the output of the last operation must equal the output of the same operation executed first in a fresh process", depth, N_OPS));
+        let sec = Section::new(&format!("histories/depth<={}", depth), &format!("every sequence of <= 3 operations (depth figure in the name: {}) over {} operations on shared keys and issuers (thorough: also every sequence of 4 over 15 of them, and of 5 over the 9 operations that do not sign with RSA); the output of the last operation must equal the output of the same operation executed first in a fresh process", depth, N_OPS));
         let mut hist: Vec<usize> = Vec::new();
-        const CHEAP: [usize; 11] = [0, 1, 2, 6, 7, 8, 9, 10, 11, 16, 18];
+        const CHEAP: [usize; 9] = [0, 2, 6, 7, 8, 9, 10, 16, 18];
         fn rec(w: &World, sec: &Section, refs: &[String], hist: &mut Vec<usize>, left: usize) {
             rec_over(w, sec, refs, hist, left, &(0..N_OPS).collect::<Vec<_>>(), 0)
         }
@@ -357,9 +357,13 @@ pub fn run(prop: &str, tier: &str, replay: Option<&str>) -> i32 {
                 return if ref_digests.get(op) == Some(&got) { 0 } else { 1 };
             }
         } else {
-            rec(&w, &sec, &ref_digests, &mut hist, depth);
-            sec.level_done(format!("all histories of length <= {}", depth));
+            rec(&w, &sec, &ref_digests, &mut hist, 3);
+            sec.level_done("all histories of length <= 3 over all operations");
             if thorough {
+                // histories of exactly 4 over the operations that do not load or sign with a 3072-bit / freshly loaded RSA key
+                let mid: Vec<usize> = (0..N_OPS).filter(|o| ![12usize, 13, 14, 15].contains(o)).collect();
+                rec_over(&w, &sec, &ref_digests, &mut hist, 4, &mid, 3);
+                sec.level_done(format!("all histories of length 4 over {} operations", mid.len()));
                 // histories of exactly 5 over the cheap operations (shorter ones are covered above)
                 rec_over(&w, &sec, &ref_digests, &mut hist, 5, &CHEAP, 4);
                 sec.level_done("all histories of length 5 over the 9 operations without an RSA signature");
